@@ -163,6 +163,9 @@ struct Rig {
     back_sent: Vec<u8>,
     back_fin: bool,
     dead: bool,
+    /// the script answered `(0, Continue)` on the front socket: sozu reads that as "this side is closed"
+    /// (a real TCP socket never answers so for a non-empty buffer); byte-loss oracles stand down
+    front_zero_cont: bool,
     /// the op that closed the session
     closed_by: String,
     _pool: Pool,
@@ -311,7 +314,7 @@ impl Area for P {
                     WebSocketContext::Tcp,
                 );
                 let line = format!("new fr={} br={} chk={}", bits(&pipe.frontend_readiness), bits(&pipe.backend_readiness), pipe.check_connections() as u8);
-                rig = Some(Rig { pipe, script, peer, _front_peer: front_peer, back_fd, pending_back: 0, back_sent: vec![], back_fin: false, dead: false, closed_by: String::new(), _pool: pool });
+                rig = Some(Rig { pipe, script, peer, _front_peer: front_peer, back_fd, pending_back: 0, back_sent: vec![], back_fin: false, dead: false, front_zero_cont: false, closed_by: String::new(), _pool: pool });
                 run.out.push(line);
                 continue;
             }
@@ -347,7 +350,7 @@ impl Area for P {
                     run.oracle.push(("pipe-close-loses-client-bytes".into(), format!("{} byte(s) read from the client were dropped at close", read_front.len() - got.len())));
                 }
                 let backend_eof = r.closed_by.starts_with("brd ") || r.closed_by == "bhup" || r.closed_by.starts_with("bwr");
-                if r.dead && backend_eof && sc.written.len() < read_back.len() {
+                if r.dead && backend_eof && !r.front_zero_cont && sc.written.len() < read_back.len() {
                     // the backend's end-of-stream (or a drained request) closed the session with backend bytes read but not written to the client
                     run.oracle.push(("pipe-backend-eof-loses-bytes".into(), format!("{} byte(s) read from the backend were dropped at close ({})", read_back.len() - sc.written.len(), r.closed_by)));
                 }
@@ -393,6 +396,9 @@ impl Area for P {
                         let mut sc = r.script.borrow_mut();
                         sc.queue.extend(bytes.iter().copied());
                         sc.sent.extend_from_slice(&bytes);
+                        if sc.queue.is_empty() && res == SocketResult::Continue {
+                            r.front_zero_cont = true;
+                        }
                         sc.next_res = Some(res);
                         sc.windows.clear();
                     }
@@ -418,7 +424,11 @@ impl Area for P {
                                 "X" => SocketResult::Closed,
                                 _ => SocketResult::Error,
                             };
-                            s.writes.push_back((n.parse().unwrap_or(0), rr));
+                            let n: usize = n.parse().unwrap_or(0);
+                            if n == 0 && rr == SocketResult::Continue {
+                                r.front_zero_cont = true;
+                            }
+                            s.writes.push_back((n, rr));
                         }
                     }
                     let out = r.pipe.writable(&mut metrics);
@@ -443,7 +453,10 @@ impl Area for P {
                     // wait until the kernel holds what the peer delivered
                     let t0 = Instant::now();
                     while (avail(r.back_fd) < r.pending_back || (r.back_fin && !rdhup(r.back_fd))) && t0.elapsed() < Duration::from_millis(500) {
-                        std::thread::yield_now();
+                        std::thread::sleep(Duration::from_micros(50));
+                    }
+                    if t0.elapsed() >= Duration::from_millis(500) {
+                        run.tags.push("brd-wait-timeout".into());
                     }
                     let out = r.pipe.backend_readable(&mut metrics);
                     r.pending_back = avail(r.back_fd);
